@@ -653,4 +653,4 @@ V("C01", "python-headerline-lt", "fire", (PYL, "                if line_nr <= he
 V("C01", "python-end-inclusive", "fire", (PYL, "end = tokens.index(scope_tokens[-1]) + 1", "end = tokens.index(scope_tokens[-1])"), "last token outside the suite", "Python.extract_blocks/exclusive-end")
 V("C01", "balanced-swapped", "fire", ("codelimit/common/token_utils.py", "                    result.append((start_index, index))", "                    result.append((index, start_index))"), "pair reversed", "get_balanced_symbol_token_indices/pair")
 V("C01", "balanced-nesting-and", "fire", ("codelimit/common/token_utils.py", "                if extract_nested or len(block_starts) == 0:\n                    result.append((start_index, index))", "                if extract_nested and len(block_starts) == 0:\n                    result.append((start_index, index))"),
-  "inner blocks never extracted", "nesting-flag")
+  "inner blocks never extracted", "rule=R")
